@@ -52,6 +52,7 @@ impl Case {
             opts: Opts { recursion_limit: 0, ns_recursion_limit: 0, deny_server: vec![], allow_server: vec![], deny_answers: vec![], allow_answers: vec![], case_randomization: false, relaxed_qmin: false },
             queries: vec![],
             tags: vec![],
+            fan: None,
         }
     }
 }
